@@ -283,6 +283,9 @@ var corpus = []string{
 	"[1, 2, 3, 4, 5, 6, 7, 8, 9, 10, 11, 12, 13, 14, 15, 16, 17, 18](Queue)\n",
 	"[\"é😀\", 'ü', 1, 2](List)\n",
 	"[\n    \"ключ\": 1\n    \"ß\": [true, 'é', \"日本\"](Set)\n](Catalog)\n",
+	// tokens that are long in bytes but short in characters, and the other way round (the diagnostic quotes and clips the unexpected token)
+	"[\"日本語の文字列がここにあります\", \"éééééééééééééééééééééé\", \"😀😀😀😀😀😀😀😀😀😀😀😀\", 1](List)\n",
+	"[\n    \"これは十九文字の日本語のキーですよね\": 1\n    \"an ASCII string that is a little longer than forty characters\": \"ünïcödé text of about forty-one characters\"\n](Catalog)\n",
 	"[\n    \"k1\": 1\n    \"k2\": 2\n    \"k3\": 3\n    \"k4\": 4\n    \"k5\": 5\n    \"k6\": 6\n    \"k7\": 7\n](Catalog)\n",
 }
 
